@@ -79,10 +79,16 @@ PROPS = {
     "C16": {"id": "C16", "source": "c16.cpp", "files": SCALAR_FILES + [VEC + "Vec1x%s.hpp" % s for s in ("8u", "8i", "16u", "16i", "32u", "32i", "64u", "64i", "32f", "64f")],
             "min_configs": {"quick": 8, "thorough": 30}, "configs": cfgs_scalar_sets, "cxxflags": ["-frounding-math", "-ffp-contract=off"], "ref_sources": FPREF,
             "optional_classes": ["scalar_and_vector_differ_only_in_zero_sign"]},
+    "C17": {"id": "C17", "source": "c17.cpp", "files": INT_VEC_FILES + [VEC + "Vectors.hpp", "include/avel/Misc.hpp"], "min_configs": {"quick": 8, "thorough": 30}},
     "C02": {"id": "C02", "source": "c02.cpp", "files": INT_VEC_FILES + FLT_VEC_FILES, "min_configs": {"quick": 8, "thorough": 30}, "digest_binding": True},
 }
 
 MANIFEST_TEXT = {
+    "C17": {
+        "technique": "property-based testing over a fixed table (snapshot of the pinned commit) of the 108 provided conversions + identities + bit_cast pairs: exhaustive 8/16-bit lane values and all mask patterns for N<=16, lattices + rapidcheck otherwise; static_cast-per-lane oracle, constructor == convert, round trip",
+        "level": "Generated-input search over (source type, destination type, form) for convert<>, the converting constructors Vector<T,N>(Vector<U,N>) / Vector_mask<T,N>(Vector_mask<U,N>), the reverse conversion of the converted value, convert<V>(V), avel::bit_cast between same-size vectors, between masks of identical representation and between scalars; masks are read back through the primitive, extract<I> and count, and a non-canonical representation after a conversion is a failure.",
+        "note": "Trusted: static_cast as the lane oracle, host CPU, compilers. The table is a committed snapshot: a specialisation deleted from the tree makes the harness fail to link (reported as a broken check here and as a violation by C19), never a silently smaller test.",
+    },
     "C16": {
         "technique": "differential property-based testing: for every function that has both a scalar overload and a vector form, the scalar result of each lane's input is compared with that lane of the vector result (heterogeneous neighbours, every width present), over exhaustive 8/16-bit inputs, strided/exhaustive 32-bit inputs, lattices + rapidcheck; mixed-sign cmp_* against an __int128 oracle",
         "level": "Generated-input search over 60 functions (bit functions, rotl/rotr, min/max/clamp, abs/neg_abs/negate, average/midpoint, keep/clear/blend, ceil..rint, sqrt, logb, frac, fmax/fmin/fdim/copysign, frexp/ldexp/scalbn, ilogb/fpclassify, isnan..signbit, isgreater..isunordered) x all 40 vector types x configurations = arm cover + scalar ladders {none,X86,POPCNT,LZCNT,BMI,BMI2} x {g++,clang++} x {-O1,-O2}; which side is wrong is decided by the independent oracles of C06/C07/C11-C13; cmp_equal/.../cmp_greater_equal for (signed, unsigned) and (unsigned, signed) operands of all four widths compare the mathematical values.",
